@@ -326,7 +326,15 @@ func (a *Announce) AnnounceName(name string) bool {
 func (a *Announce) GetStatus(meta types.NamespacedName) []IPAdvertisement {
 	a.RLock()
 	defer a.RUnlock()
-	return a.ips[meta.String()]
+	advs, ok := a.ips[meta.String()]
+	if !ok {
+		return nil
+	}
+	// The caller uses the result after the lock is released, while
+	// SetBalancer replaces elements of the slice in place: hand out a copy.
+	res := make([]IPAdvertisement, len(advs))
+	copy(res, advs)
+	return res
 }
 
 // GetInterfaces returns current interfaces list.
